@@ -5,6 +5,7 @@ every number of rings, every well-formed segment table, every view-mashing facto
 non-TOF or odd TOF mashing — no bound on sizes.
 -/
 import StirVerif.C01.ProofsBins
+import StirVerif.C01.ProofsCTI
 
 namespace StirVerif.C01
 
@@ -102,5 +103,74 @@ theorem C01_F3_truncated_segment_not_partitioned :
 example : ∃ g : Geom, ctiSegments 3 4 5 = some (g.minSeg, g.segs) ∧ g.Cfg 8 :=
   ⟨{ N := 16, R := 5, minSeg := -1, segs := [⟨-4, -2, 5⟩, ⟨-1, 1, 9⟩, ⟨2, 4, 5⟩], viewMash := 2, tofMash := 3 },
    by decide, { hN := by decide, hm := by decide, hmash := by decide, htof := by decide, wf := by decide }⟩
+
+/-! ### the segment table built by `ProjDataInfo::ProjDataInfoCTI` satisfies the well-formedness hypothesis
+
+`ctiDefect span max_delta R` (ProofsCTI.lean) is the decidable arithmetic condition
+`1 < span ∧ span/2 < max_delta ∧ (max_delta - span/2 - 1) % span = 0 ∧ (R - 1 - max_delta) % 2 = 1`:
+axial compression, the outermost segment clipped by `max_delta` to its first ring difference, and
+`num_rings - 1 - max_delta` odd (the class of `C01_F3_truncated_segment_not_partitioned`). -/
+
+/-- closed form of the table: segments `-n … n`; segment 0 is `[-span/2, span/2]`, segment `j+1` is
+    `[span/2+1+j·span, min (span/2+(j+1)·span) max_delta]` with `R-(j+1)` (span 1) resp.
+    `2R-1-2·minRD` axial positions, segment `-(j+1)` its mirror image; `n` is the least number with
+    `max_delta ≤ span/2 + n·span`.  The arguments the constructor accepts satisfy
+    `1 ≤ span`, `span/2 ≤ max_delta ≤ R-1`. -/
+theorem C01_cti_table_shape (span maxDelta R minSeg : Int) (segs : List Seg)
+    (h : ctiSegments span maxDelta R = some (minSeg, segs)) :
+    (1 ≤ span ∧ span / 2 ≤ maxDelta ∧ maxDelta ≤ R - 1) ∧
+    ∃ n : Nat, minSeg = -(n : Int) ∧
+      segs = ((List.range n).map (ctiSegK span maxDelta R)).reverse.map Seg.mirror ++
+        ctiSeg0 span R :: (List.range n).map (ctiSegK span maxDelta R) ∧
+      (∀ j : Nat, j < n → span / 2 + (j : Int) * span < maxDelta) ∧
+      maxDelta ≤ span / 2 + (n : Int) * span :=
+  ctiSegments_shape span maxDelta R minSeg segs h
+
+/-- **every segment table `ProjDataInfoCTI` builds outside the defect class is well-formed**, for all spans,
+    maximal ring differences and numbers of rings (and any number of detectors, view / TOF mashing: `WFb` does
+    not look at them) — so the ring-pair and bin theorems above apply to it -/
+theorem C01_cti_WF (span maxDelta R minSeg : Int) (segs : List Seg)
+    (h : ctiSegments span maxDelta R = some (minSeg, segs)) (hnd : ¬ ctiDefect span maxDelta R)
+    (N viewMash tofMash : Int) :
+    ({ N := N, R := R, minSeg := minSeg, segs := segs, viewMash := viewMash, tofMash := tofMash } : Geom).WFb = true :=
+  cti_WF span maxDelta R minSeg segs h hnd _ rfl rfl
+
+/-- … and the condition is exact: **inside the defect class the table is never well-formed** -/
+theorem C01_cti_defect_not_WF (span maxDelta R minSeg : Int) (segs : List Seg)
+    (h : ctiSegments span maxDelta R = some (minSeg, segs)) (hd : ctiDefect span maxDelta R)
+    (N viewMash tofMash : Int) :
+    ({ N := N, R := R, minSeg := minSeg, segs := segs, viewMash := viewMash, tofMash := tofMash } : Geom).WFb = false :=
+  cti_not_WF_of_defect span maxDelta R minSeg segs h hd _ rfl rfl
+
+/-- the constructed geometry is a configuration in the sense of the bin theorems -/
+theorem C01_cti_Cfg (span maxDelta R minSeg : Int) (segs : List Seg)
+    (h : ctiSegments span maxDelta R = some (minSeg, segs)) (hnd : ¬ ctiDefect span maxDelta R)
+    (m viewMash tofMash : Int) (hm : 0 < m) (hmash : 0 < viewMash ∧ m % viewMash = 0)
+    (htof : tofMash = 0 ∨ (0 < tofMash ∧ tofMash % 2 = 1)) :
+    Geom.Cfg { N := 2 * m, R := R, minSeg := minSeg, segs := segs, viewMash := viewMash, tofMash := tofMash } m :=
+  { hN := rfl, hm := hm, hmash := hmash, htof := htof,
+    wf := cti_WF span maxDelta R minSeg segs h hnd _ rfl rfl }
+
+/-- the witness of the known finding lies in the defect class … -/
+example : ctiDefect 3 2 4 := by decide
+
+/-- … while the same span and `max_delta` on 5 rings (last segment clipped to ring difference 2, right parity),
+    span 3 / `max_delta` 4 on 5 rings, an even span (segment 0 = `[-1,1]`), and an even span with a clipped last
+    segment (span 4, `max_delta` 5, 8 rings: segment 1 = `[3,5]`) are covered by the theorem -/
+example : ∀ N vm tm : Int, (Geom.mk N 5 (-1) [⟨-2, -2, 5⟩, ⟨-1, 1, 9⟩, ⟨2, 2, 5⟩] vm tm).WFb = true :=
+  C01_cti_WF 3 2 5 (-1) _ (by decide) (by decide)
+
+example : ∀ N vm tm : Int, (Geom.mk N 5 (-1) [⟨-4, -2, 5⟩, ⟨-1, 1, 9⟩, ⟨2, 4, 5⟩] vm tm).WFb = true :=
+  C01_cti_WF 3 4 5 (-1) _ (by decide) (by decide)
+
+example : ∀ N vm tm : Int, (Geom.mk N 5 (-1) [⟨-3, -2, 5⟩, ⟨-1, 1, 9⟩, ⟨2, 3, 5⟩] vm tm).WFb = true :=
+  C01_cti_WF 2 3 5 (-1) _ (by decide) (by decide)
+
+example : ∀ N vm tm : Int, (Geom.mk N 8 (-1) [⟨-5, -3, 9⟩, ⟨-2, 2, 15⟩, ⟨3, 5, 9⟩] vm tm).WFb = true :=
+  C01_cti_WF 4 5 8 (-1) _ (by decide) (by decide)
+
+example : ∃ g : Geom, ctiSegments 2 3 5 = some (g.minSeg, g.segs) ∧ g.Cfg 8 :=
+  ⟨{ N := 2 * 8, R := 5, minSeg := -1, segs := [⟨-3, -2, 5⟩, ⟨-1, 1, 9⟩, ⟨2, 3, 5⟩], viewMash := 2, tofMash := 3 },
+   by decide, C01_cti_Cfg 2 3 5 (-1) _ (by decide) (by decide) 8 2 3 (by decide) (by decide) (by decide)⟩
 
 end StirVerif.C01
